@@ -32,6 +32,7 @@ META = {
 }
 META["technique"] += '; scope-stack ownership and push/pop pairing (shared with C07)'
 META["technique"] += "; hand-through of the loader's matter mapping (BaseLoader.load, ChoiceLoader pass-through)"
+META["technique"] += '; unconditional binding of assign / capture'
 META["level_text"] += ' Also decided (R4): the order cannot be disturbed at run time - block scopes are pushed/popped only by RenderContext.extend, in try/finally.'
 
 COPYING_CALLS = {"list", "dict", "set", "tuple", "sorted", "frozenset", "deque", "defaultdict", "OrderedDict", "bytearray", "deepcopy", "copy", "reversed", "str", "bytes", "int", "float", "Decimal", "chain", "islice", "zip", "enumerate", "map", "filter", "iter", "range", "partial"}
@@ -410,6 +411,30 @@ def run(prog: Program, res: Result) -> None:  # noqa: PLR0912, PLR0915
 
     check_load_hands_through(prog, res, "C10.R8", "matter")
     check_choice_loader_passthrough(prog, res, "C10.R8")
+    res.rule("C10.R9", "a tag that binds a template-local name binds it every time it runs: in the render methods of every Node that declares a template_scope() (assign, capture) the `context.assign(…)` call is unconditional and is the method's only way out besides an error - an empty capture still creates its (empty) local, which shadows the render argument, matter or global of the same name")
+    n9 = 0
+    nb9 = prog.cls("liquid2.ast.Node")
+    for ci9 in sorted(prog.subclasses("liquid2.ast.Node"), key=lambda c: (c.file, c.node.lineno)):
+        if "template_scope" not in ci9.methods:
+            continue
+        for nm9 in ("render_to_output", "render_to_output_async"):
+            m9 = ci9.methods.get(nm9)
+            if m9 is None:
+                continue
+            assigns9 = [c for c in ast.walk(m9.node) if isinstance(c, ast.Call) and isinstance(c.func, ast.Attribute) and c.func.attr == "assign" and norm(c.func.value) == "context"]
+            if not assigns9:
+                continue  # counters and macros bind through other stores (their own rules)
+            n9 += 1
+            site = f"{ci9.file}:{m9.node.lineno} {ci9.name}.{nm9}"
+            what = f"{ci9.name}.{nm9}: context.assign() runs on every path"
+            cond = [c for c in assigns9 if any(isinstance(a, (ast.If, ast.IfExp, ast.For, ast.While, ast.Try)) for a in m9.module.ancestors(c) if a is not m9.node and not isinstance(a, (ast.FunctionDef, ast.AsyncFunctionDef)))]
+            early = [r for r in ast.walk(m9.node) if isinstance(r, ast.Return) and r.lineno < min(c.lineno for c in assigns9)]
+            if cond or early:
+                bad = (cond or early)[0]
+                res.fail("C10.R9", file=ci9.file, line=bad.lineno, qualname=f"{ci9.name}.{nm9}", construct=f"{ci9.name}.{nm9}: the binding is conditional", message=f"{ci9.name}.{nm9} reaches `{norm(assigns9[0], 50)}` only on some paths ({'under a condition' if cond else 'a return comes first'}): when the tag runs without binding, `{{{{ name }}}}` resolves to the render argument, matter, global or stale local of the same name instead of the tag's (possibly empty) value", what=what)
+            else:
+                res.ok("C10.R9", site, what, "unconditional, nothing returns before it")
+    res.floor("C10.R9", "binding render methods", n9, 4)
 
 
 def _param_or_empty_default(e: ast.AST, param: str) -> bool:
